@@ -427,7 +427,7 @@ def run_cases(name, bound, cases):
             continue
         files = {fn: show_bytes(b) for fn, b in c.files.items()}
         return dict(name=name, bound=bound, cases=len(cases), status='violation',
-                    detail='%s with %s: %s' % (c.source.strip().replace('\n', ' ')[:120], '; '.join('%s = %r' % (fn, t[:160]) for fn, t in files.items()), why[:300]),
+                    detail='%s: %s  [%s]' % (c.source.strip().replace('\n', ' ')[:100], why[:300], '; '.join('%s = %r' % (fn, t[:200]) for fn, t in files.items())),
                     input=dict(source=c.source, files=files, files_hex={fn: b.hex() for fn, b in c.files.items() if len(b) <= 4000}, expected=c.what,
                                observed='exit %s; artifact %r; %s; log: %s' % (rc1, arts1[0] if arts1[0] is None else arts1[0][:1500], why, log1[-300:]),
                                how='put the files next to x.ucg (the program), run the real `ucg build x.ucg`, decode the artifact x.%s (%s)'
